@@ -158,6 +158,10 @@ def _c11_cases(tier, seed):
     for _ in range(n):
         lineup = _lineup(rnd, n=rnd.randint(1, 3))
         rl = rnd.random() < 0.4
+        if rl:
+            # under the RL scheduler ANY sampler may run right after the bootstrap batch: an admissible line-up gives
+            # best-batch a batch size that one earlier batch always covers
+            lineup = [(k, 1 if k == "best" else b) for k, b in lineup]
         # RL scheduler + saving folder cannot checkpoint at all (known finding under C04: scheduler not picklable)
         yield {"lineup": lineup, "E": rnd.choice([1, 2]), "dims": 2, "seed": rnd.randrange(100), "nb": rnd.randint(1, 6),
                "site": rnd.choice(["model", "loss", "sampler"]), "k": rnd.randrange(0, 12), "rl": rl,
